@@ -8,6 +8,7 @@ CONSTANTS
   ScanMemo = "none"
   OperandScope = "process-wide, per function"
   SubqueryColumns = "per table object"
+  ResultScope = "per execute call"
   JobSet = "operands"
 INIT Init
 NEXT Next
